@@ -9,7 +9,10 @@
      compiler/optimizer/demand.go     insertDemand: no SeqScan in this subset, so only
                                       its panic "Duplicate op value" is modelled (two
                                       top-level occurrences of the shared dag.PassOp)
-   The model mirrors the code as it is.  Definitions only. *)
+   The model mirrors the code as it is (including the fixes 7e8198198 lifted
+   sort merge order, 87d257a9e pass removal before demand, a057e6809 no sort
+   key through a fan-in, d16c8d29d analyzeCuts, 5939a8776 key overlap).
+   Definitions only. *)
 From ZV Require Import Base.Prelude Model.Dag.
 Local Open Scope Z_scope.
 
@@ -59,16 +62,41 @@ Definition sort_keys_of_sort (args : list (expr * bool)) (reverse : bool) : sort
   | _ => []
   end.
 
-(* ---- analyzeCuts: the scoreboard is a set of paths ---- *)
+(* Null placement.  runtime/sam/op/sort/sort.go setComparator: nullsMax :=
+   !nullsFirst, negated when the (effective) first key is descending, and a
+   descending comparator swaps its operands: so sort puts nulls first iff
+   -nulls first was given, whatever the direction.  A sort key (pools, merge,
+   join: expr.NewComparator(nullsMax=true, key, order)) puts nulls last when
+   ascending and first when descending. *)
+Definition sort_puts_nulls_first (nf desc : bool) : bool :=
+  let nulls_max := if desc then negb (negb nf) else negb nf in
+  if desc then nulls_max else negb nulls_max.
 
-Definition sb_mem (p : path) (sb : list path) : bool := existsb (path_eqb p) sb.
-Definition sb_add (p : path) (sb : list path) : list path := if sb_mem p sb then sb else sb ++ [p].
-Definition sb_del (p : path) (sb : list path) : list path :=
-  filter (fun q => negb (path_eqb p q)) sb.
+Definition key_order_nulls_first (desc : bool) : bool := desc.
 
-Fixpoint cuts_loop (args : list assignment) (sb : list path) : option (list path) :=
+(* ---- analyzeCuts: a cut outputs only the fields it assigns and evaluates
+        every right-hand side on its input, so the ordered output fields are
+        exactly those assigned from the input key ---- *)
+
+Fixpoint has_prefix (p pre : path) : bool :=
+  match pre, p with
+  | [], _ => true
+  | x :: pre', y :: p' => N.eqb x y && has_prefix p' pre'
+  | _ :: _, [] => false
+  end.
+
+(* overlaps(a, b) = a.HasPrefix(b) || b.HasPrefix(a) *)
+Definition overlaps (a b : path) : bool := has_prefix a b || has_prefix b a.
+
+(* overlaps(fieldOf(e), key): fieldOf of a non-field is the nil path, a prefix
+   of every path *)
+Definition overlaps_e (e : expr) (key : path) : bool :=
+  match e with EThis p => overlaps p key | _ => true end.
+
+Fixpoint cuts_loop (args : list assignment) (key : path) (ordered : list path)
+  : option (list path) :=
   match args with
-  | [] => Some sb
+  | [] => Some ordered
   | (l, r) :: rest =>
     match field_of l with
     | None => None
@@ -78,12 +106,12 @@ Fixpoint cuts_loop (args : list assignment) (sb : list path) : option (list path
         match fields_of r with
         | None => None
         | Some deps =>
-          if existsb (fun d => sb_mem d sb) deps then None
-          else cuts_loop rest (sb_del lhs sb)
+          if existsb (fun d => overlaps d key) deps then None
+          else cuts_loop rest key ordered
         end
       | Some rhs =>
-        if sb_mem rhs sb then cuts_loop rest (sb_add lhs sb)
-        else cuts_loop rest (sb_del lhs sb)
+        if path_eqb rhs key then cuts_loop rest key (ordered ++ [lhs])
+        else cuts_loop rest key ordered
       end
     end
   end.
@@ -92,13 +120,24 @@ Definition analyze_cuts (args : list assignment) (in_ : sortkeys) : sortkeys :=
   match in_ with
   | [] => []
   | (d, key) :: _ =>
-    match cuts_loop args [key] with
+    match cuts_loop args key [] with
     | Some [f] => [(d, f)]
     | _ => []
     end
   end.
 
 (* ---- analyzeSortKeys ---- *)
+
+Fixpoint rename_loop (args : list assignment) (d : bool) (key : path) (out : sortkeys)
+  : sortkeys :=
+  match args with
+  | [] => out
+  | (l, r) :: rest =>
+    if field_is r key
+    then rename_loop rest d key [(d, match field_of l with Some p => p | None => [] end)]
+    else if overlaps_e r key || overlaps_e l key then []
+    else rename_loop rest d key out
+  end.
 
 Definition analyze (o : op) (in_ : sortkeys) : sortkeys :=
   match o with
@@ -110,13 +149,9 @@ Definition analyze (o : op) (in_ : sortkeys) : sortkeys :=
       match o with
       | OFilter _ | OHead _ | OPass | OUniq _ | OTail _ | OFuse | OOutput _ => in_
       | OCut args => analyze_cuts args in_
-      | ODrop args => if existsb (fun f => field_is f key) args then [] else in_
-      | ORename args =>
-        fold_left (fun out a =>
-                     if field_is (snd a) key
-                     then [(d, match field_of (fst a) with Some p => p | None => [] end)]
-                     else out) args in_
-      | OPut args => if existsb (fun a => field_is (fst a) key) args then [] else in_
+      | ODrop args => if existsb (fun f => overlaps_e f key) args then [] else in_
+      | ORename args => rename_loop args d key in_
+      | OPut args => if existsb (fun a => overlaps_e (fst a) key) args then [] else in_
       | _ => []
       end
     end
@@ -130,6 +165,13 @@ Definition condense (parents : list sortkeys) : sortkeys :=
   match parents with
   | [] => []
   | p :: r => if forallb (sortkeys_eqb p) r then p else []
+  end.
+
+(* Only merge keeps the common order of several parents. *)
+Definition parent_of (o : op) (parents : list sortkeys) : sortkeys :=
+  match o with
+  | OMerge _ _ => condense parents
+  | _ => if (1 <? List.length parents)%nat then [] else condense parents
   end.
 
 Fixpoint summ_match (keys : list assignment) (key : path) : bool :=
@@ -162,7 +204,7 @@ Fixpoint prop_op (o : op) (parents : list sortkeys) {struct o} : op * prop_res :
     | _ => (o, ([], true))
     end
   | OSummarize l keys aggs dir pin pout =>
-    match condense parents with
+    match parent_of o parents with
     | [] => (o, ([[]], false))
     | ((d, key) :: _) as parent =>
       if summ_match keys key
@@ -170,7 +212,7 @@ Fixpoint prop_op (o : op) (parents : list sortkeys) {struct o} : op * prop_res :
       else (o, ([[]], false))
     end
   | OFork paths =>
-    let parent := condense parents in
+    let parent := parent_of o parents in
     let '(paths', res) :=
         (fix go (pp : list (list op)) : list (list op) * prop_res :=
            match pp with
@@ -185,7 +227,7 @@ Fixpoint prop_op (o : op) (parents : list sortkeys) {struct o} : op * prop_res :
     let sk := match field_of e with Some p => [(d, p)] | None => [] end in
     (o, ([if sortkeys_eqb sk (condense parents) then sk else []], false))
   | OScan sk _ => (o, ([sk], false))
-  | _ => (o, ([analyze o (condense parents)], false))
+  | _ => (o, ([analyze o (parent_of o parents)], false))
   end.
 
 Fixpoint prop_seq (s : list op) (parents : list sortkeys) {struct s} : list op * prop_res :=
@@ -274,6 +316,11 @@ Definition lift (ops : list op) : list op :=
       | OSort args nf rev =>
         match args with
         | [(k0, d0)] =>
+          (* the merge must order values the way the sort does: -r reverses the
+             key's order; a merge places nulls last for asc and first for desc *)
+          let sort_desc := if rev then negb d0 else d0 in
+          if negb (Bool.eqb nf sort_desc) then ops
+          else
           match merge with
           | Some (e, d) =>
             match field_of e with
@@ -284,8 +331,8 @@ Definition lift (ops : list op) : list op :=
               else ops
             end
           | None =>
-            if has2 then rebuild (append_paths paths eo) (OMerge k0 d0) OPass
-            else rebuild (append_paths paths eo) o1 (OMerge k0 d0)
+            if has2 then rebuild (append_paths paths eo) (OMerge k0 sort_desc) OPass
+            else rebuild (append_paths paths eo) o1 (OMerge k0 sort_desc)
           end
         | _ => ops
         end
@@ -346,6 +393,9 @@ Definition optimize (s : seq) : option seq :=
   let s3 := opt_parallels s2 in
   let s4 := merge_filters s3 in
   let s5 := source_paths s4 in
-  (* insertDemand: panic("Duplicate op value") when the shared dag.PassOp occurs
-     twice at the top level *)
-  if (2 <=? count_pass s5)%nat then None else Some (remove_pass s5).
+  (* removePassOps now runs before insertDemand, whose panic "Duplicate op
+     value" (two top-level occurrences of the shared dag.PassOp) is therefore
+     unreachable; it stays in the model so that the correspondence check
+     notices if it comes back. *)
+  let s6 := remove_pass s5 in
+  if (2 <=? count_pass s6)%nat then None else Some s6.
